@@ -177,10 +177,43 @@ func sameInstanceType(f *fn, q int) bool {
 	return typeName(f.params[q].Type()) == typeName(f.params[0].Type()) && hasMutex(f.params[q].Type())
 }
 
+// goTargets: methods that some function of the package starts as a goroutine (`go c.cleanup()`): the library's own
+// actors.  They are listed in the lock table as "go:<name>" so that the same obligations cover them: every access under
+// the right lock (C01) and, per iteration of their loop, ONE critical section (C02: what the janitor does on a tick is one
+// atomic step for every caller).
+func goTargets() map[*types.Func]bool {
+	out := map[*types.Func]bool{}
+	for _, f := range order {
+		if f.decl.Body == nil {
+			continue
+		}
+		ast.Inspect(f.decl.Body, func(n ast.Node) bool {
+			g, ok := n.(*ast.GoStmt)
+			if !ok {
+				return true
+			}
+			if se, ok := g.Call.Fun.(*ast.SelectorExpr); ok {
+				if sel := f.pkg.TypesInfo.Selections[se]; sel != nil {
+					if callee, ok := sel.Obj().(*types.Func); ok {
+						out[callee.Origin()] = true
+					}
+				}
+			}
+			return true
+		})
+	}
+	return out
+}
+
 func lockTable() []outMethod {
 	var out []outMethod
+	gos := goTargets()
 	for _, f := range order {
-		if f.decl.Recv == nil || !f.obj.Exported() || !hasMutex(f.params[0].Type()) {
+		if f.decl.Recv == nil || !hasMutex(f.params[0].Type()) || f.sum == nil {
+			continue
+		}
+		isGo := gos[f.obj.Origin()]
+		if !f.obj.Exported() && !isGo {
 			continue
 		}
 		tn := f.pkg.Name + "." + typeName(f.params[0].Type())
@@ -195,7 +228,11 @@ func lockTable() []outMethod {
 			}
 		}
 		for _, inst := range insts {
-			m := outMethod{Type: tn, Method: f.obj.Name(), Inst: inst}
+			mname := f.obj.Name()
+			if isGo && !f.obj.Exported() {
+				mname = "go:" + mname
+			}
+			m := outMethod{Type: tn, Method: mname, Inst: inst}
 			seen := map[string]bool{}
 			for _, p := range f.sum.Paths {
 				op := outPath{Flags: []string{}}
@@ -224,6 +261,9 @@ func lockTable() []outMethod {
 				}
 				for k := range p.Flags {
 					op.Flags = append(op.Flags, k)
+				}
+				if isGo && !f.obj.Exported() {
+					op.Flags = append(op.Flags, "goroutine") // a path of one of the library's own goroutines
 				}
 				for o := range p.Escape {
 					if o.P == inst && escapeMatters(f, o) {
